@@ -166,6 +166,9 @@ def check_gather(repo, chk):
         (3 * half, spins(3 * half), spins(half), [sp.Integer(0)]),
         (sp.Integer(1), spins(sp.Integer(1)), spins(sp.Integer(1)), None),
         (sp.Integer(1), spins(sp.Integer(1)), [sp.Integer(-1), sp.Integer(1)], spins(sp.Integer(1))),  # massless-like helicity list
+        (sp.Integer(1), [sp.Integer(-1), sp.Integer(1)], spins(half), spins(half)),  # restricted mother helicities (virtual photon)
+        (sp.Integer(1), [sp.Integer(1), sp.Integer(0), sp.Integer(-1)], spins(sp.Integer(1)), [sp.Integer(0)]),  # mother helicities in descending order
+        (3 * half, [3 * half], spins(half), [sp.Integer(0)]),  # a single mother helicity
     ]
     for ja, la, lb, lc in cases:
         tr = Translator(repo, hooks=hooks, max_depth=8)
